@@ -225,7 +225,7 @@ pub fn gen_auth(t: &mut Tape) -> Auth {
         4 => Auth::UnregisteredKey,
         5 => Auth::ReplayResponse(t.choose(8)),
         6 => Auth::ReplayEtag(t.choose(8)),
-        _ => Auth::NoEtag,
+        _ => Auth::ReplaySignature(t.choose(3)),
     }
 }
 
@@ -384,6 +384,7 @@ pub fn gen_script(t: &mut Tape, p: &Profile) -> Script {
         spoil_app_after_start: None,
         repeat_last_http: false,
         junk_service_url: false,
+        busy_storage_mask: 0,
     };
     if p.junk_url.0 > 0 && t.chance(p.junk_url.0, p.junk_url.1) {
         s.service_url = gen_junk_url(t);
